@@ -115,6 +115,28 @@ theorem compare_total_preorder (hN : CmpLaws O.cmp) (hT : CmpLaws cmpText) :
         | (intro h; exact absurd h (by decide))
         | (intro _ h; exact absurd h (by decide))
 
+/-- the text comparison of the model (upper-case, then code-point order) IS a total preorder -/
+theorem cmpText_laws : CmpLaws cmpText where
+  refl a := by unfold cmpText; exact Std.ReflCmp.compare_self
+  swap a b := by unfold cmpText; exact Std.OrientedCmp.eq_swap
+  trans a b c h1 h2 := by
+    unfold cmpText at *
+    have h1' : (compare a.toUpper b.toUpper).isLE = true := by
+      cases h : compare a.toUpper b.toUpper <;> simp_all [Ordering.isLE]
+    have h2' : (compare b.toUpper c.toUpper).isLE = true := by
+      cases h : compare b.toUpper c.toUpper <;> simp_all [Ordering.isLE]
+    have := Std.TransCmp.isLE_trans h1' h2'
+    cases h : compare a.toUpper c.toUpper <;> simp_all [Ordering.isLE]
+
+/-- `compare_total_preorder` with the text hypothesis discharged: only the number comparison of the
+    instance has to be a total preorder -/
+theorem compare_total_preorder_of_numbers (hN : CmpLaws O.cmp) :
+    (∀ a : Val N, compareValues O a a = .eq) ∧
+    (∀ a b : Val N, compareValues O b a = (compareValues O a b).swap) ∧
+    (∀ a b c : Val N, NonEmpty a → NonEmpty b → NonEmpty c →
+      compareValues O a b ≠ .gt → compareValues O b c ≠ .gt → compareValues O a c ≠ .gt) :=
+  compare_total_preorder O hN cmpText_laws
+
 /-- an empty cell compares equal to the neutral element of every class, and below every error -/
 theorem compare_empty_neutral (hN : CmpLaws O.cmp) (hT : CmpLaws cmpText) :
     compareValues O (.empty : Val N) (.num O.zero) = .eq ∧
@@ -133,6 +155,17 @@ theorem compare_cross_type (n : N) (s : String) (b : Bool) (e : Err) :
     compareValues O (.bool b) (.err e) = .lt ∧ compareValues O (.num n) (.bool b) = .lt := by
   simp [compareValues, cmpCore, fillEmpty, classOf]
   decide
+
+/-- inside array operands a comparison is strict too: an error element is the result, the left one
+    first (as for `+ - * / ^ &`) -/
+theorem compare_array_elem_strict (op : BinOp) (e : Err) (v : Val N) :
+    cmpElem O op (.err e) v = .err e ∧ ((∀ e', v ≠ .err e') → cmpElem O op v (.err e) = .err e) := by
+  constructor
+  · simp [cmpElem]
+  · intro h
+    cases v with
+    | err e' => exact absurd rfl (h e')
+    | _ => simp [cmpElem]
 
 /-- exactly one of `<`, `=`, `>` holds, and `<=`, `>=`, `<>` are their complements -/
 theorem compare_ops_consistent (o : Ordering) :
@@ -217,7 +250,8 @@ def C06_and_or_strict (cfg : Cfg) : Prop :=
 theorem C06_and_or_strict_reference : C06_and_or_strict (N := N) Cfg.reference :=
   fun isAnd pre items e h => and_or_strict_reference isAnd items none e pre h
 
-/-- F06a, machine-checked: the pinned engine's `OR(TRUE, #N/A)` is TRUE, not `#N/A` -/
+/-- F06a, machine-checked: with short-circuiting (the pinned engine) `OR(TRUE, #N/A)` is TRUE, not
+    `#N/A` -/
 theorem C06_and_or_strict_engine_false : ¬ C06_and_or_strict (N := N) Cfg.engine := by
   intro h
   unfold C06_and_or_strict at h
